@@ -1,16 +1,16 @@
 (* "The same plain value": the relation C14 and C04 state their exactness claims with.
    Scalars equal, except that an int position also admits the bool with the same integer
    value (Python identifies True/False with 1/0) and a float position admits any float
-   within math.isclose's default tolerance (the documented float tolerance); lists
+   within math.isclose's default tolerance (the documented float tolerance; NaN matches NaN); lists
    element-wise and of the same length; dicts with the same key set, member-wise. *)
 From Coq Require Import PrimFloat.
-Require Import D42.Prelude D42.PyFloat D42.Value D42.Schema.
+Require Import D42.Prelude D42.PyFloat D42.Value D42.Schema D42.Validate.
 
 Inductive veq : value -> value -> Prop :=
 | veq_none : veq VNone VNone
 | veq_bool b : veq (VBool b) (VBool b)
 | veq_int z w : as_int w = Some z -> veq (VInt z) w
-| veq_float x y : isclose y x = true -> veq (VFloat x) (VFloat y)
+| veq_float x y : float_value_ok y x None = true -> veq (VFloat x) (VFloat y)   (* isclose, or both NaN *)
 | veq_str s : veq (VStr s) (VStr s)
 | veq_bytes b : veq (VBytes b) (VBytes b)
 | veq_uuid n : veq (VUuid n) (VUuid n)
